@@ -42,11 +42,20 @@ theorem tstep_sameTiming {c : Cfg} {now qlen : Nat} {t t' : Task} {act : Act}
     simp only [tstep] at h <;> (repeat' split at h) <;> (try cases h) <;>
     (refine ⟨rfl, rfl, rfl, rfl, rfl, ?_⟩; intro b; simp only [Task.setAt, upd]; split <;> simp_all)
 
+theorem ctxDeadline_bounds (c : Cfg) (now T : Nat) : now ≤ ctxDeadline c now T ∧ ctxDeadline c now T ≤ now + T := by
+  unfold ctxDeadline
+  split
+  · split
+    · simp only [Nat.min_def]; split <;> omega
+    · omega
+  · omega
+
 /-- every task-local transition preserves the timing invariant (the clock does not move) -/
 theorem time_tstep {c : Cfg} (hc : c.old = false) {now qlen : Nat} {t t' : Task} {act : Act} (ok : TaskOK t)
     (tk : TimeOK now t) (h : tstep c now qlen t act = some t') : TimeOK now t' := by
   have hpre := ok.pre0
   have hpos := ok.att_pos
+  have hcd := ctxDeadline_bounds c now t.T
   obtain ⟨t1, t2, t3, t4⟩ := tk
   cases act
   case fire k a => exact timeOK_same (tstep_sameTiming (Or.inl ⟨k, a, rfl⟩) h) ⟨t1, t2, t3, t4⟩
